@@ -9,8 +9,6 @@ import (
 	"fmt"
 	"hash/fnv"
 	"os"
-	"os/exec"
-	"path/filepath"
 	"sort"
 	"strconv"
 	"strings"
@@ -878,26 +876,13 @@ func runSpec(prop string) int {
 		// instants at which a command probes the key relative to the deadline": the expired-key pairs
 		// (reaper timer as a third thread) - both from the interleaving explorer (engines/concmc,
 		// pairs.go), run as a second stage of this check
-		if bin := os.Getenv("VERIF_CONC_BIN"); bin != "" {
-			dir := os.Getenv("VERIF_SCRATCH")
-			if dir == "" {
-				dir = os.TempDir()
-			}
-			tmp := filepath.Join(dir, fmt.Sprintf("verif-sub-%d.json", os.Getpid()))
-			cmd := exec.Command(bin, prop)
-			cmd.Env = append(os.Environ(), "VERIF_SUBREPORT="+tmp)
-			cmd.Stderr = os.Stderr
-			if err := cmd.Run(); err != nil {
-				fmt.Fprintln(os.Stderr, "seqmc: the concurrent stage of "+prop+" failed to run:", err)
-				return 2
-			}
-			sub, err := rep.Import(tmp)
-			os.Remove(tmp)
-			if err != nil {
-				fmt.Fprintln(os.Stderr, "seqmc: cannot read the concurrent stage's report:", err)
-				return 2
-			}
-			cov["concurrent_stage"] = map[string]interface{}{"engine": "concmc", "schedules": sub["evaluations"], "preemption_bound": sub["preemption_bound"], "generated_pairs": sub["generated_pairs"], "race_pass_runs": sub["race_pass_runs"], "race_reports": sub["race_reports"], "exhaustive": sub["exhaustive"]}
+		sum, ran, err := rep.ConcStage(prop)
+		if err != nil {
+			fmt.Fprintln(os.Stderr, "seqmc:", err)
+			return 2
+		}
+		if ran {
+			cov["concurrent_stage"] = sum
 		}
 	}
 	rc := rep.Finish(cov, seqAssumptions)
